@@ -103,8 +103,27 @@ func (m *MMap) Truncate(size int64) error {
 	if size < 0 || size > m.virtualSize {
 		return fmt.Errorf("invalid truncate size %d, current size %d", size, m.virtualSize)
 	}
-	// 被丢弃的部分需要清零, 后续写入会从新的末尾开始
-	clear(m.activeMap[size:m.virtualSize])
+	// 被丢弃的部分需要清零, 后续写入会从新的末尾开始.
+	// 未正常关闭的映射文件, 其大小是整个映射区域 (512MB 的整数倍), 逻辑末尾之后几乎全部是从未写入的空洞:
+	// 逐段检查, 只清除非零的部分, 连续两段全零后认为其后从未写入过数据, 避免触碰 (并实际分配) 整个映射区域
+	const step = 32 * 1024
+	zeroRun := 0
+	for off := size; off < m.virtualSize && zeroRun < 2; off += step {
+		chunk := m.activeMap[off:min(off+step, m.virtualSize)]
+		dirty := false
+		for _, c := range chunk {
+			if c != 0 {
+				dirty = true
+				break
+			}
+		}
+		if dirty {
+			clear(chunk)
+			zeroRun = 0
+		} else {
+			zeroRun++
+		}
+	}
 	m.virtualSize = size
 	return nil
 }
